@@ -512,7 +512,8 @@ def _render_args(r, slots, values, mode, in_opt=False):
                     continue
                 r.emit(slot['open'])
                 r.math_depth += md
-                inner = _render_list(r, v[1], amode, 'group', True)
+                # only content delimited by brackets pairs brackets up; in <...> they are ordinary characters
+                inner = _render_list(r, v[1], amode, 'group', slot['open'] == '[')
                 r.math_depth -= md
                 r.emit(slot['close'])
                 args.append(('g', slot['open'], slot['close'], _finish_list(inner), amode))
